@@ -106,8 +106,11 @@ pub fn cases(_tier: &str, _seed: u64) -> Vec<Case> {
                 }
             }
             // peek functions, counts of three shapes
-            for counts in [[1u16, 2, 3, 4], [0xFFFF, 0, 0x8000, 0x00FF]] {
-                let b = hdr(*id ^ w, w, counts);
+            for (ci, counts) in [[1u16, 2, 3, 4], [0xFFFF, 0, 0x8000, 0x00FF]].into_iter().enumerate() {
+                // the id word differs from the flags word in every bit (first shape) or in most (second): a field read from
+                // the wrong one of the two shows
+                let idw = if ci == 0 { !w } else { w.rotate_left(3) ^ 0x1234 ^ *id };
+                let b = hdr(idw, w, counts);
                 let h = text::hex(&b);
                 let peeks: [(&str, String); 7] = [
                     ("id", res(header_buffer::id(&b), |x| x.to_string())),
@@ -171,7 +174,7 @@ pub fn cases(_tier: &str, _seed: u64) -> Vec<Case> {
                 }
                 // oracle for the numeric peeks
                 let mut c = Case::oracle_only().tag("peek-oracle");
-                let ok = header_buffer::id(&b).ok() == Some(*id ^ w)
+                let ok = header_buffer::id(&b).ok() == Some(idw)
                     && header_buffer::questions(&b).ok() == Some(counts[0])
                     && header_buffer::answers(&b).ok() == Some(counts[1])
                     && header_buffer::name_servers(&b).ok() == Some(counts[2])
@@ -341,6 +344,21 @@ pub fn cases(_tier: &str, _seed: u64) -> Vec<Case> {
                     }
                 }
                 v.push(c);
+                // the counts say what the message holds, whatever the flags say: the same message with its last entry cut
+                // short (or missing) does not come back as a packet with fewer entries than its header announces
+                if an + ar > 0 {
+                    for cut in [1usize, 6, 11] {
+                        let short = &b[..b.len() - cut];
+                        let out = match Packet::parse(short) { Ok(p) => format!("ok {}", text::packet(&p)), Err(_) => "err".to_string() };
+                        let mut c = Case::new(format!("parse {}", text::hex(short)), out).tag("parse-with-entries-cut");
+                        if let Ok(p) = Packet::parse(short) {
+                            if p.answers.len() != an as usize || p.additional_records.len() != ar as usize {
+                                c = c.fail("header-layout", format!("word {:#06x}: the header announces {} answer(s) and {} additional record(s), the last entry is {} octet(s) short, and a packet with {} / {} comes back", w, an, ar, cut, p.answers.len(), p.additional_records.len()));
+                            }
+                        }
+                        v.push(c);
+                    }
+                }
             }
         }
     }
